@@ -229,6 +229,61 @@ theorem C02_partial_searchEnv (prog : Prog) (hs : loopsStructured prog = true)
     | exact absurd h id
     | (obtain ⟨h1, h2, _⟩ := h; rw [h1, h2])
 
+/-- Match end, captures and tick count of an outcome (`none`: out of budget or `.error`). -/
+def btKey : Bt.Outcome → Option (Option (Nat × Api.Caps) × Nat)
+  | .matched e st s _ => some (some (e, Bt.capsOf st), s)
+  | .failed _ s _ => some (none, s)
+  | _ => none
+
+open Regress.VM.Sim in
+/-- **Attempt `k + 1` is independent of attempt `k`** (programs without `Loop1CharBody`): an attempt
+on a reused matcher state `st` — arbitrary loop slots, groups cleared, as `BacktrackExecutor` has it
+after a failed attempt (`failed_attempt_restores`) or after `successful_match` — has the same result
+(match end, captures, tick count) as an attempt on a fresh matcher, provided none of the three runs
+involved reports `.error`. Both are related to the same PikeVM attempt; at address 0 no loop slot is
+live. -/
+theorem reused_matcher_attempt (prog : Prog) (hs : loopsStructured prog = true)
+    (hl : looksStructured prog = true) (hsimple : simpleProg prog = true) (inp : Input)
+    (hok : inpOK inp = true) (fuel pos : Nat) (st : Bt.State)
+    (hg : st.groups = (freshState prog 0).groups) (hsz : st.loops.size = prog.loops)
+    (hP : ∀ e, Pk.attempt prog inp fuel pos ≠ .error e)
+    (hB1 : ∀ e, Bt.attemptWith prog inp fuel pos st ≠ .error e)
+    (hB2 : ∀ e, Bt.attemptFresh prog inp fuel pos ≠ .error e) :
+    btKey (Bt.attemptWith prog inp fuel pos st) = btKey (Bt.attemptFresh prog inp fuel pos) := by
+  have h1 := attemptWith_sim hs hl hsimple hok (inp := inp) fuel pos st hg hsz
+  have h2 := attempt_sim hs hl hsimple hok (inp := inp) fuel pos
+  change OutSim prog none 0 (Bt.attemptFresh prog inp fuel pos) _ at h2
+  generalize Bt.attemptWith prog inp fuel pos st = o1 at h1 hB1
+  generalize Bt.attemptFresh prog inp fuel pos = o2 at h2 hB2
+  generalize Pk.attempt prog inp fuel pos = op at h1 h2 hP
+  cases op with
+  | error e => exact absurd rfl (hP e)
+  | matched e' q s' p' =>
+    cases o1 <;> cases o2 <;> simp only [OutSim] at h1 h2 <;> first
+      | exact absurd rfl (hB1 _)
+      | exact absurd rfl (hB2 _)
+      | exact absurd h1 id
+      | exact absurd h2 id
+      | skip
+    obtain ⟨a1, a2, _, _, a3, _⟩ := h1
+    obtain ⟨b1, b2, _, _, b3, _⟩ := h2
+    simp [btKey, Bt.capsOf, a1, a2, b1, b2, ← a3.groups, ← b3.groups]
+  | failed s' p' =>
+    cases o1 <;> cases o2 <;> simp only [OutSim] at h1 h2 <;> first
+      | exact absurd rfl (hB1 _)
+      | exact absurd rfl (hB2 _)
+      | exact absurd h1 id
+      | exact absurd h2 id
+      | skip
+    simp [btKey, h1.1, h2.1]
+  | outOfFuel =>
+    cases o1 <;> cases o2 <;> simp only [OutSim] at h1 h2 <;> first
+      | exact absurd rfl (hB1 _)
+      | exact absurd rfl (hB2 _)
+      | exact absurd h1 id
+      | exact absurd h2 id
+      | rfl
+
 /-- `/(a|ab)(c|bcd)*\1/` (dump of the real compiler). -/
 def progAlt : Prog :=
   { insns := #[.beginCaptureGroup 0, .alt 4, .byteSeq [0x61], .jump 5, .byteSeq [0x61, 0x62],
@@ -372,5 +427,6 @@ end Regress.C02
 #print axioms Regress.C02.bt_refines_pk
 #print axioms Regress.C02.C02_partial
 #print axioms Regress.C02.C02_partial_searchEnv
+#print axioms Regress.C02.reused_matcher_attempt
 #print axioms Regress.C02.look_loops_not_restored
 #print axioms Regress.C02.old_endGroup_violates_frame
